@@ -2,6 +2,7 @@ package rules
 
 import (
 	"fmt"
+	"regexp"
 	"sort"
 	"strings"
 
@@ -416,7 +417,67 @@ func c07Read(c *Ctx) {
 			}
 			c.R.AddCells(len(ps))
 		}
-		c.verdict(rule, rule+"/Read-long", c.P.FuncPos(f), uniq(lp), "reads of 7..33 bytes: one automaton step per byte, in order")
+		// the same reads from the accepting state: a shortcut for plain ASCII may leave bytes out of
+		// the automaton, but only bytes it has looked at - every byte that is not fed to decode must
+		// occur in a condition decided on the path
+		for _, nn := range lens {
+			nn := nn
+			m3 := c.machine()
+			addBinaryModels(m3)
+			m3.Models["invoke:(io.Reader).Read"] = func(cl *fold.Call) fold.Val {
+				if s, ok := cl.Args[1].(fold.SliceV); ok {
+					for i := int64(0); i < s.Len; i++ {
+						cl.M.SetElem(s, i, fold.Int{Lo: 0, Hi: 255, Name: fmt.Sprintf("b%d", i)})
+					}
+				}
+				return fold.Tuple{fold.K(int64(nn)), fold.Nil{}}
+			}
+			m3.Models[wsutil+".decode"] = func(cl *fold.Call) fold.Val {
+				cl.M.Emit(fold.Effect{Kind: "call", Name: "decode", Args: cl.Args})
+				return fold.Tuple{fold.Int{Lo: 0, Hi: 1<<32 - 1, Name: fmt.Sprintf("codep%d", cl.Seq)}, fold.K(0)}
+			}
+			ps := m3.Explore(f, func(mm *fold.Machine) []fold.Val {
+				s := fold.SymOfType("u", un).(fold.Struct)
+				uSet(s, L.utf8SourceP, fold.Iface{V: fold.Sym{Name: "Source", NonNil: true}})
+				uSet(s, L.utf8StateP, fold.K(0))
+				uSet(s, L.utf8CodepP, fold.K(0))
+				uSet(s, L.utf8AcceptedP, fold.K(0))
+				el := make([]fold.Val, nn+3)
+				for i := range el {
+					el[i] = fold.K(0)
+				}
+				return []fold.Val{fold.Ref{O: mm.NewObj("u", s)}, mm.NewBytes("p", el)}
+			}, nil)
+			for _, p := range ps {
+				if p.Abort != "" || p.Panic {
+					lp = append(lp, fmt.Sprintf("undecided: read of %d bytes from the accepting state: %s%s", nn, p.Abort, panicNote(p)))
+					continue
+				}
+				fed := map[string]bool{}
+				for _, st := range p.Calls("decode") {
+					if k, ok := st.Args[2].(fold.Int); ok {
+						fed[k.Name] = true
+					}
+				}
+				var conds []string
+				for _, ch := range p.Choices {
+					conds = append(conds, ch.Key)
+				}
+				all := strings.Join(conds, " ")
+				for i := 0; i < nn; i++ {
+					b := fmt.Sprintf("b%d", i)
+					if fed[b] {
+						continue
+					}
+					if !regexp.MustCompile(`\b` + b + `\b`).MatchString(all) {
+						lp = append(lp, fmt.Sprintf("read of %d bytes from the accepting state: byte %d is neither fed to the automaton nor examined by any condition on the path - a lead byte there goes unnoticed", nn, i))
+						break
+					}
+				}
+			}
+			c.R.AddCells(len(ps))
+		}
+		c.verdict(rule, rule+"/Read-long", c.P.FuncPos(f), uniq(lp), "reads of 7..33 bytes: one automaton step per byte, in order; no byte escapes both the automaton and the path conditions")
 	}
 
 	if v := c.method(rule, wsutil, "UTF8Reader", "Valid"); v != nil {
